@@ -39,7 +39,7 @@ class C18(Prop):
         exe = self.impl_driver(ctx)
         rng = ctx.rng
         quick = ctx.tier == "quick"
-        seq, _ = prbs_seq(511 * 3)
+        seq, _ = prbs_seq(511 * 5)
         lines, meta = [], []
         # generator: whole period
         gen_lines = ["prbs_gen 1022"] + [f"prbs_gen 40 {g}" for g in (1, 2, 255, 256, 511, 0)]
